@@ -141,7 +141,8 @@ def judge(prop, mode, tier, seed, replay, scs=None):
             # behaviours of it (they are judged by the property-level spec like every other run)
             asynctrace.model_runs(out, sc, mode, tier)
             scs = scs + asynctrace.scenarios(seed, 32 if tier == "quick" else 400, mode) \
-                + asynctrace.serial_scenarios(seed, 32 if tier == "quick" else 400, mode)
+                + asynctrace.serial_scenarios(seed, 32 if tier == "quick" else 400, mode) \
+                + asynctrace.hasseb_scenarios(seed, 16 if tier == "quick" else 200, mode)
         recs = record(scs)
         if replay is None:
             asynctrace.conformance(out, recs, sc)
